@@ -201,7 +201,7 @@ def rule_r2_r3(ck, prog, spec):
                         "its value leaks from the previous message" % p)
     # R3: per-unit
     summ = {"findCommandHeader": X.return_stores(find)}
-    pgp, stp = X.must_stored(parse, reset_calls=("scpiParser_detectProgramMessageUnit",), callee_summaries=summ)
+    pgp, stp = X.must_stored(parse, reset_calls=("scpiParser_detectProgramMessageUnit",), callee_summaries=summ, prog=prog)
     pcs = K.ordinal_sites(list(parse.calls("processCommand")))
     if not pcs:
         ck.anchor_lost("C09-R3", "call of processCommand in SCPI_Parse")
@@ -210,7 +210,7 @@ def rule_r2_r3(ck, prog, spec):
     if not cbs:
         ck.anchor_lost("C09-R3", "call-back invocation in processCommand")
         return
-    pgc, stc = X.must_stored(proc)
+    pgc, stc = X.must_stored(proc, prog=prog)
     for i, pc in enumerate(pcs):
         s1 = stp.get(pgp.before(pc), frozenset())
         for j, cb in enumerate(K.ordinal_sites(cbs)):
@@ -241,12 +241,12 @@ def stored_before_handler(prog):
     if not (parse and proc and find):
         return None
     summ = {"findCommandHeader": X.return_stores(find)}
-    pgp, stp = X.must_stored(parse, reset_calls=("scpiParser_detectProgramMessageUnit",), callee_summaries=summ)
+    pgp, stp = X.must_stored(parse, reset_calls=("scpiParser_detectProgramMessageUnit",), callee_summaries=summ, prog=prog)
     pcs = list(parse.calls("processCommand"))
     cbs = [c for c in proc.calls() if c.get("callee") is None and "callback" in (c.get("callee_path") or "")]
     if not pcs or not cbs:
         return None
-    pgc, stc = X.must_stored(proc)
+    pgc, stc = X.must_stored(proc, prog=prog)
     out = None
     for pc in pcs:
         for cb in cbs:
